@@ -472,6 +472,50 @@ fn run(c: &Case) -> Outcome {
             }
             Err(e) => a.fail("cleartext-sign", "sign", e),
         }
+        // the sibling constructors: `new` with a configuration of the hash under test, and
+        // `new_many` (the signer callback gets the text to sign) with two signers
+        let cfg_for = |k: &pgp::packet::SecretKey, h: HashAlgorithm| -> pgp::errors::Result<SignatureConfig> {
+            use pgp::types::KeyDetails;
+            let mut cfg = match k.version() {
+                pgp::types::KeyVersion::V6 => SignatureConfig::v6(crate::engine::rng(13), SignatureType::Text, k.algorithm(), h)?,
+                _ => SignatureConfig::v4(SignatureType::Text, k.algorithm(), h),
+            };
+            cfg.hashed_subpackets = vec![
+                pgp::packet::Subpacket::regular(pgp::packet::SubpacketData::SignatureCreationTime(pgp::types::Timestamp::from_secs(common::NOW)))?,
+                pgp::packet::Subpacket::regular(pgp::packet::SubpacketData::IssuerFingerprint(k.fingerprint()))?,
+            ];
+            Ok(cfg)
+        };
+        match cfg_for(key, hash).and_then(|cfg| CleartextSignedMessage::new(text, cfg, key, &pw)) {
+            Ok(m) => {
+                a.check("cleartext-new", "verify", es(m.verify(&pubkey).map(|_| ())));
+                a.check(
+                    "cleartext-new",
+                    "armored->from_string->verify",
+                    es(m.to_armored_string(None.into())).and_then(|s| es(CleartextSignedMessage::from_string(&s)).and_then(|(m2, _)| es(m2.verify(&pubkey).map(|_| ())))),
+                );
+            }
+            Err(e) => a.fail("cleartext-new", "sign", e),
+        }
+        let many = CleartextSignedMessage::new_many(text, |to_sign| {
+            let s1 = cfg_for(key, hash)?.sign(key, &pw, to_sign.as_bytes())?;
+            let s2 = cfg_for(key2, HashAlgorithm::Sha512)?.sign(key2, &pw, to_sign.as_bytes())?;
+            Ok(vec![s1, s2])
+        });
+        match many {
+            Ok(m) => {
+                a.check("cleartext-new_many", "verify(first signer)", es(m.verify(&pubkey).map(|_| ())));
+                a.check("cleartext-new_many", "verify(second signer)", es(m.verify(&pubkey2).map(|_| ())));
+                a.check(
+                    "cleartext-new_many",
+                    "armored->from_string->verify(both)",
+                    es(m.to_armored_string(None.into())).and_then(|s| {
+                        es(CleartextSignedMessage::from_string(&s)).and_then(|(m2, _)| es(m2.verify(&pubkey).map(|_| ())).and_then(|_| es(m2.verify(&pubkey2).map(|_| ()))))
+                    }),
+                );
+            }
+            Err(e) => a.fail("cleartext-new_many", "sign", e),
+        }
     }
 
     a.o.evals = a.pairs.max(1);
@@ -625,7 +669,7 @@ pub fn check(ctx: &Ctx) {
     ctx.run_space(
         "sign_x_verify",
         true,
-        "payloads: all strings over {CR,LF,TAB,SP,'-','a',e-acute,NUL} up to length 4 (thorough 5) and over {CR,LF,x} up to length 9 (10); for each: detached binary/text, SignatureConfig::sign with every 2-piece delivery, MessageBuilder (binary, text sig over binary literal, text sig over utf8 literal; 1 and 2 signers; binary and armored), cleartext framework -- each verified through every applicable interface (direct, after to_bytes/from_bytes, after armor, inline after read_to_end and after 1-byte reads, signature packet extracted from a message and verified as detached, detached signature wrapped as a prefixed-signature message). Every payload with Ed25519 v4 and v6 (SHA-256/512 alternating); ECDSA P-256 v4/v6, EdDSA-legacy, RSA-2048, Ed448 on the short payloads; plus dash/armor-boundary lines (alone, as second line, with final newline), plus payloads x^n.w (w over {CR,LF,x}, |w|<=2) ending exactly at / one past 512, 1024, 8192. evaluations = (sign,verify) pairs.",
+        "payloads: all strings over {CR,LF,TAB,SP,'-','a',e-acute,NUL} up to length 4 (thorough 5) and over {CR,LF,x} up to length 9 (10); for each: detached binary/text, SignatureConfig::sign with every 2-piece delivery, MessageBuilder (binary, text sig over binary literal, text sig over utf8 literal; 1 and 2 signers; binary and armored), cleartext framework through sign / new (hash under test) / new_many (two signers, two hashes) -- each verified through every applicable interface (direct, after to_bytes/from_bytes, after armor, inline after read_to_end and after 1-byte reads, signature packet extracted from a message and verified as detached, detached signature wrapped as a prefixed-signature message). Every payload with Ed25519 v4 and v6 (SHA-256/512 alternating); ECDSA P-256 v4/v6, EdDSA-legacy, RSA-2048, Ed448 on the short payloads; plus dash/armor-boundary lines (alone, as second line, with final newline), plus payloads x^n.w (w over {CR,LF,x}, |w|<=2) ending exactly at / one past 512, 1024, 8192. evaluations = (sign,verify) pairs.",
         cases.into_par_iter(),
         run,
     );
